@@ -2,6 +2,7 @@ package govc
 
 import (
 	"bytes"
+	"regexp"
 	"context"
 	"fmt"
 	"os"
@@ -43,7 +44,14 @@ func (u *Unit) Script(ob *Obligation, pi int) string {
 		sb.WriteString(d)
 		sb.WriteByte('\n')
 	}
-	for _, it := range u.Items[:part.Prefix] {
+	sliced := sliceItems(u.Items[:part.Prefix], part.Goal)
+	declared := map[string]bool{}
+	for _, it := range sliced {
+		if strings.HasPrefix(it, "(declare-") || strings.HasPrefix(it, "(define-fun") {
+			if sy := symbolsOf(it); len(sy) > 0 {
+				declared[sy[0]] = true
+			}
+		}
 		sb.WriteString(it)
 		sb.WriteByte('\n')
 	}
@@ -56,7 +64,17 @@ func (u *Unit) Script(ob *Obligation, pi int) string {
 	if len(part.Witness) > 0 && ob.Expect != "sat" {
 		var ts []string
 		for _, w := range part.Witness {
-			ts = append(ts, w.Term)
+			ok := true
+			for _, sy := range symbolsOf(w.Term) {
+				if !declared[sy] {
+					ok = false
+				}
+			}
+			if ok {
+				ts = append(ts, w.Term)
+			} else {
+				ts = append(ts, "0") // sliced away: keeps the positions of the answers aligned with the witness list
+			}
 		}
 		sb.WriteString("(get-value (" + strings.Join(ts, " ") + "))\n")
 	}
@@ -238,4 +256,141 @@ func SolveAll(units []*Unit, dir string, solvers []SolverCfg, workers int, all b
 	close(ch)
 	wg.Wait()
 	return results
+}
+
+// ---- cone-of-influence slicing of the hypotheses of one query ----
+// Dropping hypotheses is always sound for a validity query (it can only make the proof harder); it keeps
+// quantified facts about unrelated state out of queries that are about something else.
+
+var symRe = regexp.MustCompile(`\|[^|]*\||embid|globid|str\.ofbytes`)
+
+func symbolsOf(s string) []string { return symRe.FindAllString(s, -1) }
+
+// guard symbols and the allocation counter occur in almost every hypothesis: they do not make one relevant
+func isGuardSym(s string) bool {
+	return strings.HasPrefix(s, "|reach.") || strings.HasPrefix(s, "|edge!") || strings.HasPrefix(s, "|pc!") || strings.HasPrefix(s, "|G.alloc")
+}
+
+func sliceItems(items []string, goal string) []string {
+	if os.Getenv("GOVC_NOSLICE") != "" {
+		return items
+	}
+	type it struct {
+		kind  string // decl, def, assert
+		name  string
+		guard []string
+		body  []string
+	}
+	parsed := make([]it, len(items))
+	for i, t := range items {
+		switch {
+		case strings.HasPrefix(t, "(declare-const ") || strings.HasPrefix(t, "(declare-fun "):
+			syms := symbolsOf(t)
+			n := ""
+			if len(syms) > 0 {
+				n = syms[0]
+			} else {
+				f := strings.Fields(t)
+				if len(f) > 1 {
+					n = f[1]
+				}
+			}
+			parsed[i] = it{kind: "decl", name: n}
+		case strings.HasPrefix(t, "(define-fun ") || strings.HasPrefix(t, "(define-fun-rec "):
+			syms := symbolsOf(t)
+			if len(syms) == 0 {
+				parsed[i] = it{kind: "assert", body: nil}
+				continue
+			}
+			parsed[i] = it{kind: "def", name: syms[0], body: syms[1:]}
+		case strings.HasPrefix(t, "(assert "):
+			x := it{kind: "assert"}
+			rest := t
+			if strings.HasPrefix(t, "(assert (=> |") {
+				j := strings.Index(t[13:], "|")
+				if j >= 0 {
+					g := t[12 : 13+j+1]
+					if isGuardSym(g) {
+						x.guard = []string{g}
+						rest = t[13+j+1:]
+					}
+				}
+			}
+			x.body = symbolsOf(rest)
+			parsed[i] = x
+		default:
+			parsed[i] = it{kind: "assert"}
+		}
+	}
+	cone := map[string]bool{}
+	for _, s := range symbolsOf(goal) {
+		cone[s] = true
+	}
+	keep := make([]bool, len(items))
+	changed := true
+	for changed {
+		changed = false
+		for i := range parsed {
+			x := &parsed[i]
+			if keep[i] {
+				continue
+			}
+			switch x.kind {
+			case "def":
+				if cone[x.name] {
+					keep[i] = true
+					changed = true
+					for _, s := range x.body {
+						cone[s] = true
+					}
+				}
+			case "assert":
+				rel := len(x.body) == 0
+				onlyHubs := true
+				hubInCone := false
+				for _, s := range x.body {
+					if !isGuardSym(s) {
+						onlyHubs = false
+						if cone[s] {
+							rel = true
+							break
+						}
+					} else if cone[s] {
+						hubInCone = true
+					}
+				}
+				if onlyHubs && hubInCone {
+					rel = true // cheap facts about the allocation counter / path conditions themselves
+				}
+				if rel {
+					keep[i] = true
+					changed = true
+					for _, s := range x.body {
+						cone[s] = true
+					}
+					for _, s := range x.guard {
+						cone[s] = true
+					}
+				}
+			}
+		}
+	}
+	noQuant := os.Getenv("GOVC_NOQUANT") != "" // development aid: drop quantified hypotheses to obtain a model quickly
+	var out []string
+	for i, t := range items {
+		if noQuant && strings.Contains(t, "(forall ") && parsed[i].kind == "assert" {
+			continue
+		}
+		switch parsed[i].kind {
+		case "decl":
+			if cone[parsed[i].name] {
+				out = append(out, t)
+			}
+		default:
+			if keep[i] {
+				out = append(out, t)
+			}
+		}
+	}
+	return out
 }
